@@ -65,6 +65,24 @@ func newRepoUnderTest(impl string, scratch string) (*repoUnderTest, error) {
 		m.VerifSetRandStrGen(idGen)
 		u.repo, u.mem = m, m
 		u.closeFn = func() {}
+	case "entfault":
+		// file-backed ent on the gating driver: calls whose context carries a gatedrv.Faulter have one statement failed
+		file := filepath.Join(scratch, fmt.Sprintf("gkhf%d_%d.db", os.Getpid(), dbSeq.Add(1)))
+		f, err := openEntFileDriver(file, true, gatedrv.Name)
+		if err != nil {
+			return nil, err
+		}
+		f.clk = u.clk
+		f.repo.(*entrepo.EntRepository).VerifSetClock(u.clk)
+		f.repo.(*entrepo.EntRepository).VerifSetRandStrGen(idGen)
+		u.repo, u.rec = f.repo, f.rec
+		cl := f.closeFn
+		u.closeFn = func() {
+			cl()
+			for _, sfx := range []string{"", "-journal", "-wal", "-shm"} {
+				os.Remove(file + sfx)
+			}
+		}
 	case "ent", "entfile":
 		var dsn string
 		var file string
@@ -162,6 +180,10 @@ func ctxOf(c string) context.Context {
 // the operation and report success; the SQL repository's statement then fails without effect — either is fine, an
 // error together with an effect is not: C01); anything else = live.
 func (u *repoUnderTest) opCtx(flag string) context.Context {
+	if len(flag) == 2 && flag[0] == '3' {
+		// "3k": the k-th statement boundary (Exec / Query / Commit) this call issues fails in the SQL driver
+		return gatedrv.WithFault(context.Background(), &gatedrv.Faulter{At: int(flag[1] - '0')})
+	}
 	if flag != "2" || u.clk == nil {
 		return ctxOf(flag)
 	}
@@ -609,6 +631,7 @@ type repoGen struct {
 	adds        int
 	maxLive     int
 	backsteps   int // times the clock stepped back
+	sqlFaults   bool // impl entfault: some calls get one of their SQL statements failed (ctx flag "3k")
 }
 
 var (
@@ -776,6 +799,9 @@ func (g *repoGen) ctx() string {
 	}
 	if g.r.Chance(1, 25) {
 		return "2" // cancelled while the call is running
+	}
+	if g.sqlFaults && g.r.Chance(1, 6) {
+		return "3" + strconv.Itoa(1+g.r.Intn(4)) // one of the call's first four statement boundaries fails
 	}
 	return "0"
 }
@@ -972,7 +998,7 @@ func cmdRepo(args []string) {
 	} else {
 		hists, traces = parallelGen(&c, c.n, func(i int, r *rng.R) (sim.History, []string) {
 			g := &repoGen{r: r, profile: *profile, now: T0, maxLive: *maxLive, adversarial: *adversarial,
-				avoid: map[string]bool{}, findHeavy: *findHeavy}
+				avoid: map[string]bool{}, findHeavy: *findHeavy, sqlFaults: *impl == "entfault"}
 			for _, a := range strings.Split(*avoid, ",") {
 				if a != "" {
 					g.avoid[a] = true
